@@ -895,7 +895,7 @@ def explore(ctx, factor, bs):
             preloop_case(ctx, case)
             ctx.record(case, True)
     # ---- A: catalogue
-    n_forms = ctx.pick(12, 80) * factor
+    n_forms = ctx.pick(12, 70) * factor
     site_cap = ctx.pick(32, 110)
     applicable = {m[0]: 0 for m in c17_mut.CATALOGUE}
     done = 0
@@ -929,7 +929,7 @@ def explore(ctx, factor, bs):
     ctx.notes["catalogue_applications"] = applicable
     ctx.notes["catalogue_base_forms"] = done
     # ---- B: vocabulary fuzz
-    n_fuzz = ctx.pick(6000, 100000) * factor
+    n_fuzz = ctx.pick(6000, 90000) * factor
     for i in range(n_fuzz):
         k = i % 10
         if k < 5:
